@@ -10,8 +10,9 @@ use crate::verif::atomic::{AtomicBool, Ordering};
 use std::sync::Arc;
 
 use super::{blocking::ThreadPark, AtomicOption};
+use crate::cancel::Cancel;
 use crate::coroutine_impl::{
-    co_cancel_data, is_coroutine, run_coroutine, CoroutineImpl, EventSource,
+    co_get_handle, is_coroutine, run_coroutine, CoroutineImpl, EventSource,
 };
 use crate::park::ParkError;
 use crate::scheduler::get_scheduler;
@@ -69,9 +70,15 @@ impl Park {
 impl EventSource for Park {
     // register the coroutine to the park
     fn subscribe(&mut self, co: CoroutineImpl) {
-        let cancel = co_cancel_data(&co);
+        // hold a handle to keep the cancel data alive after the coroutine
+        // is published (it may finish on another thread)
+        let handle = co_get_handle(&co);
+        let cancel = handle.get_cancel();
         // delay drop the container here to hold the resource
         let _container = self.container.get_mut().take().unwrap();
+        // register the cancel data *before* the coroutine is published, so
+        // that a late registration can never overwrite that of a later wait
+        cancel.set_co(self.wait_co.clone());
         // register the coroutine
         self.wait_co.store(co);
         // re-check the state, only clear once after resume
@@ -85,11 +92,9 @@ impl EventSource for Park {
             return;
         }
 
-        // register the cancel data
-        cancel.set_co(self.wait_co.clone());
         // re-check the cancel status
         if cancel.is_canceled() {
-            unsafe { cancel.cancel() };
+            Cancel::cancel_slot(&self.wait_co);
         }
     }
 }
